@@ -109,7 +109,11 @@ def run_ctor(ctx, g):
         d = core.run_tlc("MC_BarCtor", "MC_BarCtor_asbuilt.cfg", workers=2)
         if "Invariant RejectsWhatItMust is violated" not in d.out:
             raise core.MachineryError("self-test: as-built switch of BarCtor no longer violates RejectsWhatItMust")
-        cases = [(i, c, ("D" if i % 3 == 0 else None)) for i, c in enumerate(g["ctorCases"])]
+        cases = []
+        for c in g["ctorCases"]:
+            # events of one tick are stored in insertion order: lay the signature events out in both orders
+            for ex in ([c["extras"]] if len(c["extras"]) < 2 else [c["extras"], c["extras"][::-1]]):
+                cases.append((len(cases), dict(c, extras=ex), ("D" if len(cases) % 3 == 0 else None)))
         for _ in range(20000 if ctx.thorough else 3000):
             num, den = ctx.rng.choice([(4, 4), (3, 4), (6, 8), (2, 2), (9, 8), (1, 4), (5, 8), (7, 16)])
             cap = num * 96 // den
@@ -127,6 +131,9 @@ def run_ctor(ctx, g):
                 extras.append(P.ts(ctx.rng.choice([0, 6]), *ctx.rng.choice([(4, 4), (3, 4), (6, 8)])))
             elif r < .55:
                 extras += [P.ts(0, num, den), P.ts(ctx.rng.choice([6, 12]), *ctx.rng.choice([(num, den), (5, 4)]))]
+            elif r < .65:
+                tk = ctx.rng.choice([0, 0, 6])
+                extras += [P.ts(tk, *sg) for sg in ctx.rng.sample([(num, den), (num, den), (5, 4), (3, 8)], ctx.rng.choice([2, 3]))]
             if ctx.rng.random() < .3:
                 extras.append(P.ks(0, ctx.rng.choice(["C", "A", "Bb"])))
             c = {"notes": notes, "extras": extras, "dur": ctx.rng.choice([0, cap - 1, cap, cap + 1, cap * 2, cap * 24]),
